@@ -216,7 +216,9 @@ func runConc(tier string, seed int64) int {
 		for q := 0; q < nQueries/2; q++ {
 			i := int32(64*41 + g.intn(64*20))
 			e := top - int32(g.intn(3)*64) - int32(g.intn(2))
-			add(id+".NextOne", func() string { return fmt.Sprint(bitmap.NextOne(ws, i, e), bitmap.NextOne(ws, 0, e), bitmap.PrevOne(ws, i, e)) })
+			add(id+".NextOne", func() string {
+				return fmt.Sprint(bitmap.NextOne(ws, i, e), bitmap.NextOne(ws, 0, e), bitmap.PrevOne(ws, i, e))
+			})
 			add(id+".PrevOne", func() string { return fmt.Sprint(bitmap.PrevOne(ws, 0, e), bitmap.PrevOne(ws, 64, top)) })
 		}
 	}
